@@ -101,6 +101,25 @@ def converted_twice_cases():
     return out
 
 
+def optional_output_cases():
+    """Requested outputs (and results of If branches) of OPTIONAL type in programs whose operators need no more than opset 15: the result
+    identities of the graphs must be valid at the version the model imports.  Judged by the direct oracle."""
+    import numpy as np
+    import spox.opset.ai.onnx.v17 as op17
+
+    out = []
+    for where in ("main-output", "branch-result"):
+        v = B.argument(B.Tensor(np.float32, (2,)))
+        c = B.argument(B.Tensor(np.bool_, ()))
+        if where == "main-output":
+            outs = {"y": op17.optional(v)}
+        else:
+            (r,) = op17.if_(c, then_branch=lambda: [op17.optional(v)], else_branch=lambda: [op17.optional(type=B.Tensor(np.float32, (2,)))])
+            outs = {"h": op17.optional_has_element(r)}
+        out.append(B.Case({"v": v, "c": c}, outs, True, {"names": "corner:optional-typed-result/" + where}))
+    return out
+
+
 def sibling_duplicate_case():
     """Corner: an inlined model whose two If branches each own a value of the same name (legal ONNX)."""
     import numpy as np
@@ -153,6 +172,7 @@ def run(run: Run) -> int:
         cases.append(c)
     cases.append(function_in_branch_and_main_case())
     mixed = mixed_cases(run, n // 4) + converted_twice_cases()
+    cases += optional_output_cases()       # compared with the model: the result identity of an Optional value needs opset 16
     for c in mixed:
         B.run_impl(c)
         c.coq = None
